@@ -22,7 +22,7 @@ from common import nets, nets_g, batch_g
 warnings.filterwarnings('ignore', message='Polyfit may be poorly conditioned')
 
 ID = 'C16'
-N = {'quick': 160, 'thorough': 2000}
+N = {'quick': 120, 'thorough': 1500}
 LEAN_MODULES = ['GnpyProofs.Props.C16']
 THEOREMS = [f'Gnpy.Plan.{t}' for t in (
     'plan_results_pointwise', 'plan_result_context', 'plan_perm', 'plan_leaves_settings', 'copy_leaves_settings',
